@@ -74,8 +74,7 @@ def sequences(tier):
     seqs += pairs
     seqs += RECOMMENDED_TRIPLES
     if tier == "thorough":
-        rewriting = ["IdentityElimination", "CSE", "DeduplicateInitializers", "LiftAllConstants", "LiftSubgraphInitializers", "Inline", "NameFix", "OutputFix", "RemoveUnusedNodes"]
-        seqs += [t for t in itertools.permutations(rewriting, 3)]
+        seqs += [t for t in itertools.permutations(core, 3)]     # every ordered triple of the 16 rewriting passes
     return seqs
 
 
@@ -329,12 +328,12 @@ def run(chk, tier):
     )
     nseq = len(sequences(tier))
     chk.bounds = dict(models=list(models.MODELS), passes=list(pass_table()), sequences_per_model=nseq,
-                      sequence_shapes="all singles, all ordered pairs of the rewriting passes, recommended triples" + ("; all ordered triples of 9 rewriting passes" if tier == "thorough" else ""))
+                      sequence_shapes="all singles, all ordered pairs of the rewriting passes, recommended triples" + ("; all ordered triples of the 16 rewriting passes" if tier == "thorough" else ""))
     chk.not_decided += ["'accepted by the ONNX checker after the pass' is not solver-decided (the checker is C++ behind FFI): it is RUN concretely on the result of every explored sequence as a side-oracle", "numerical meaning of individual operators (abstracted - a stronger claim)",
                         "models outside the family; shape-inference content (only that it leaves the dataflow unchanged)"]
     # encoder validation: EUF verdicts agree with onnxruntime on hand-made equal / different pairs
     _validate_encoder(chk)
-    step = 80 if tier == "quick" else 160
+    step = 80 if tier == "quick" else 400
     items = [(m, lo, min(lo + step, nseq)) for m in models.MODELS for lo in range(0, nseq, step)]
     parallel(chk, "harness.C05", "shard", items)
     chk.extra["rule"] = "one case per (model, pass sequence); two obligations each (object graph, serialized round trip)"
